@@ -12,6 +12,7 @@ Grammar (line oriented; '#' starts a comment line; indentation continues a claus
     ret <ident>                              name for the return value (default r)
     external -- reason                       R10: keep the text, #[verifier::external_body]
     rule R13 | rule R14                      statement desugarings applied in this function
+    adapter key                              R23: the closure literal `|(k, _)| g(k)` (g a local FnMut) becomes `key_adapter(g)`
     ghostinit <field> <expr>                 R22: `<field>: PhantomData` in this function's struct literal becomes `<field>: <expr>`
     deref griddle|hb|ghost <table place expr>      R21: every `RECV.as_ref()` / `RECV.as_mut()` of this function (RECV a bucket) becomes
                                              `bucket_ref(&RECV, &TBL)` / `bucket_mut(&RECV, &mut TBL)` (`hb_ref`/`hb_mut` for a raw
@@ -64,6 +65,7 @@ class Fn:
         self.rules = []
         self.deref = None    # R21: (kind, table place expression)
         self.ghostinit = None  # R22: (field, expression)
+        self.adapter = None    # R23
         self.stake = []
         self.fnattr = []
         self.sigspec = []
@@ -177,6 +179,8 @@ def parse(path):
                 cur_target.external = s.partition("--")[2].strip() or "outside the verifier's subset"
             elif isinstance(cur_target, Fn) and s.startswith("stake "):
                 cur_target.stake += s.split()[1:]
+            elif isinstance(cur_target, Fn) and s.startswith("adapter "):
+                cur_target.adapter = s.split()[1]
             elif isinstance(cur_target, Fn) and s.startswith("ghostinit "):
                 _, fld_, ex_ = s.split(None, 2)
                 cur_target.ghostinit = (fld_, ex_.strip())
